@@ -49,12 +49,18 @@ pub fn run(stim: &Value, rec: &Rec) {
     }
     let by_id: HashMap<u8, String> = srvs.iter().map(|(n, s)| (s.id, n.clone())).collect();
     let script = stim["script"].as_array().cloned().unwrap_or_default();
+    let stim_list: Option<Vec<String>> = stim["list"].as_array().map(|a| a.iter().filter_map(|x| x.as_str().map(|s| s.to_string())).collect());
     let rt = tokio::runtime::Builder::new_current_thread().enable_all().build().unwrap();
     let log = rec.clone();
     let srvs_cell = std::sync::Arc::new(std::sync::Mutex::new(srvs));
     let sc = srvs_cell.clone();
     rt.block_on(async move {
-        let (ch, tx) = Channel::balance_channel::<String>(64);
+        // stim.list: the endpoints are given up front to Channel::balance_list (keys k1, k2 in the trace); otherwise balance_channel
+        let (ch, tx) = if let Some(list) = stim_list.as_ref() {
+            let eps: Vec<Endpoint> = list.iter().map(|srv| { let port = sc.lock().unwrap().get(srv).map(|s| s.port).unwrap_or(1); Endpoint::from_shared(format!("http://127.0.0.1:{port}")).unwrap() }).collect();
+            for (i, srv) in list.iter().enumerate() { log.ev(json!({"e":"env","op":"insert","key":format!("k{}", i + 1),"srv":srv,"sent":true})); }
+            (Channel::balance_list(eps.into_iter()), None)
+        } else { let (ch, tx) = Channel::balance_channel::<String>(64); (ch, Some(tx)) };
         let cl = SvcClient::new(ch);
         for st in script.iter() {
             let op = st["op"].as_str().unwrap_or("");
@@ -64,10 +70,10 @@ pub fn run(stim: &Value, rec: &Rec) {
                 "insert" => {
                     let port = sc.lock().unwrap().get(&srv).map(|s| s.port).unwrap_or(1);
                     let ep = Endpoint::from_shared(format!("http://127.0.0.1:{port}")).unwrap();
-                    let ok = tx.send(Change::Insert(key.clone(), ep)).await.is_ok();
+                    let ok = match tx.as_ref() { Some(tx) => tx.send(Change::Insert(key.clone(), ep)).await.is_ok(), None => false };
                     log.ev(json!({"e":"env","op":"insert","key":key,"srv":srv,"sent":ok}));
                 }
-                "remove" => { let ok = tx.send(Change::Remove(key.clone())).await.is_ok(); log.ev(json!({"e":"env","op":"remove","key":key,"srv":"-","sent":ok})); }
+                "remove" => { let ok = match tx.as_ref() { Some(tx) => tx.send(Change::Remove(key.clone())).await.is_ok(), None => false }; log.ev(json!({"e":"env","op":"remove","key":key,"srv":"-","sent":ok})); }
                 "down" | "up" => {
                     let sc2 = sc.clone(); let srv2 = srv.clone(); let up = op == "up"; let log2 = log.clone();
                     let ok = tokio::task::spawn_blocking(move || { let mut g = sc2.lock().unwrap(); match g.get_mut(&srv2) { Some(s) => if up { start(s, &log2) } else { stop(s); true }, None => false } }).await.unwrap_or(false);
